@@ -86,6 +86,7 @@ var (
 	changeAt   [4]int64
 	nChange    int
 	noPreempt  bool  // set when step budget for preemption is exhausted
+	forceRTB   bool  // world asked for run-to-block (sequential worlds)
 	preemptCap int64 = 200000
 
 	// bookkeeping
@@ -163,6 +164,7 @@ func Reset(seed uint64, explicitTape []uint64) {
 	switches = 0
 	preempts = 0
 	noPreempt = false
+	forceRTB = false
 	tapeLen = 0
 	seedVal = seed
 	rng = seed
@@ -231,6 +233,9 @@ func Begin(n int) {
 		armLevel = 1
 	}
 	salt = Raw()
+	if forceRTB {
+		policy = PolRunToBlock
+	}
 	if policy == PolPCT {
 		// distinct priorities: a random permutation
 		for i := 0; i < n; i++ {
@@ -251,6 +256,13 @@ func Begin(n int) {
 	}
 	active = n > 0
 }
+
+// ForceRunToBlock makes the next Begin use the run-to-block policy whatever
+// the tape says (worlds whose parties share harness state and synchronise at
+// their blocking points only). Call during world build.
+//
+//go:norace
+func ForceRunToBlock() { forceRTB = true }
 
 // TaskEnter parks the calling goroutine until it is scheduled for the first
 // time.
